@@ -7,8 +7,8 @@ Clauses (DESIGN.md section 6, C15):
                common-range lattices: signed differences inside calibrated bands (ref/thermo.py BAND)
  (b) identity  the single-potential identity of C14(3) for t2thermo.cowat / supst on the same lattices
  (c) inverse   tsat(sat(t)) = t on the saturation line every 0.1 degC
- (d) bounds    bounds=True gives no value exactly when the reference range predicate (doc/source/t2thermo.rst, IFC-67
-               regions 1 and 2) says outside, and the bounds=False value inside: every (T lattice + ulp neighbours of
+ (d) bounds    bounds=True gives no value exactly when the reference range predicate (doc/source/t2thermo.rst; for
+               supst the vapour range up to sat(t) to 374.15 degC, then b23p(t), then 100 MPa) says outside, and the bounds=False value inside: every (T lattice + ulp neighbours of
                0.01, 350, 374.15, 590, 800) x (p lattice + ulp neighbours of 0, 100 MPa, sat(T), b23p(T))
  (e) region    the two classifiers agree for t <= 350 and t > 374.15 degC away (1 %) from the curves
  (f) separator separated_steam_fraction in [0, 1] and non-decreasing in enthalpy on the stated grid
@@ -34,16 +34,18 @@ RULE = ('compare / identity: every state of the liquid lattice (T x log-spaced p
         'x (p lattice to 120 MPa + ulp neighbours of 0, 100 MPa, sat(T), b23p(T)) for cowat and supst, the T set for '
         'sat, a log pressure lattice + neighbours of sat(0.01) and 22.12 MPa for tsat; classifiers: the same (T, p) set '
         'restricted to t <= 350 or t > 374.15 and further than 1 % from the curves; separator: h = 0..3.5 MJ/kg step '
-        '10 kJ/kg x P1 = 0.1..5 MPa step 0.1 x {single stage, P2 < P1 on the same grid}.  One evaluation = one oracle '
+        '10 kJ/kg x P1 = 0.1..5 MPa step 0.1 x {single stage, every ordered pair (P1, P2) of the same grid, P2 below, equal to and above P1}.  One evaluation = one oracle '
         'decision on one state; distinct = distinct (clause, routine, state); non-trivial = the clause has an oracle at '
         'the state (classifier states near a curve or between 350 and 374.15 degC are executed but not judged)')
 ASSUMPTIONS = [
-    'reference ranges: cowat = IFC-67 region 1 (0.01..350 degC, sat(t)..100 MPa); supst = IFC-67 region 2 (0.01..800 degC, '
-    '0 < p <= sat(t) to 350 degC, <= the L-function boundary b23p(t) to 590 degC, <= 100 MPa above); sat = 0.01..374.15 '
+    'reference ranges: cowat = IFC-67 region 1 (0.01..350 degC, sat(t)..100 MPa); supst = the range its own bounds logic encodes, which is '
+    'how TOUGH2 uses it (0.01..800 degC, 0 < p <= sat(t) to 374.15 degC, <= the L-function boundary b23p(t) from 374.15 '
+    'to 590 degC, <= 100 MPa above; the documentation\'s "region 2" is loose wording - owner\'s ruling); sat = 0.01..374.15 '
     'degC; tsat = sat(0.01)..22.12 MPa (doc/source/t2thermo.rst).  The curves themselves are the library\'s sat / b23p; '
     'exactly on a curve either answer is accepted',
-    'where b23p(t) exceeds 100 MPa by rounding of its coefficients (t = 590) either answer is accepted between 100 MPa '
-    'and the curve; between the printed 374.15 and the computed 647.3 - 273.15 either answer is accepted',
+    'where two nominally coincident limits differ by rounding of printed coefficients either answer is accepted between '
+    'them: b23p(590) vs 100 MPa, the printed 374.15 vs the '
+    'computed 647.3 - 273.15',
     '"no value" is None or a tuple of None',
     'comparison bands and finite-difference tolerances are calibrated on the pinned tree (ref/thermo.py); nothing is '
     'claimed between lattice points',
@@ -54,10 +56,10 @@ ASSUMPTIONS = [
     'docstring; their count is in counters.continued_under_remedy',
 ]
 BOUNDS = {
-    'quick': {'T_step_degC': 5, 'pressures_per_isotherm': 30, 'sat_line_step_degC': 0.1, 'tsat_lattice_points': 300,
-              'separator': 'single stage complete; two-stage for P1, P2 in {0.1,0.5,1,2,3,4,5} MPa', 'limits': 'complete'},
+    'quick': {'T_step_degC': 2, 'pressures_per_isotherm': 40, 'sat_line_step_degC': 0.1, 'tsat_lattice_points': 300,
+              'separator': 'single stage complete; every ordered two-stage pair of {0.1,0.5,1,2,3,4,5} MPa', 'limits': 'complete'},
     'thorough': {'T_step_degC': 1, 'pressures_per_isotherm': 60, 'sat_line_step_degC': 0.1, 'tsat_lattice_points': 3000,
-                 'separator': 'single stage and all 1225 two-stage pairs', 'limits': 'complete'},
+                 'separator': 'single stage and all 2500 ordered two-stage pairs', 'limits': 'complete'},
 }
 TECHNIQUE = ('bounded exhaustive enumeration: lattice + ulp-neighbour enumeration of (T,p) states on the real IFC-67 '
              'routines against the IAPWS-97 routines (differential oracle), a reference range predicate and identities')
@@ -70,7 +72,7 @@ LEVEL_NOTE = ('Continuous domain: nothing is claimed between lattice points.  Tr
 CAL = os.environ.get('VERIF_CALIBRATE') == '1'
 
 PARAMS = {
-    'quick': dict(tstep=5., npres=30, ntsat=300, two_stage='coarse', tchunk=16),
+    'quick': dict(tstep=2., npres=40, ntsat=300, two_stage='coarse', tchunk=32),
     'thorough': dict(tstep=1., npres=60, ntsat=3000, two_stage='all', tchunk=32),
 }
 
@@ -265,20 +267,31 @@ def chk_sat_cmp(T, I, t):
 # (c) tsat(sat(t)) = t
 # ----------------------------------------------------------------------------------------------------------
 
+def tsat_pclass(T, p):
+    try:
+        lo = float(T.sat(R.T_MIN))
+    except Exception:
+        lo = None
+    return 'p' + position(p, [('sat(0.01)', lo), ('pc67', R.PCRIT67)])
+
+
 def chk_tsat_inv(T, t, count=None):
     m = {}
     viols = []
     tb = tband(t, 100.)
+    pcls = '?'
     try:
         p = call('sat', T.sat, t)
         if p is None:
             return [('C15|sat|no-value-inside-range|%s' % tb, 'sat(%r) is None' % t)], m, 'none'
+        pcls = tsat_pclass(T, float(p))
         err, ts = with_remedy(T, count, 'tsat', T.tsat, float(p))
     except LibErr as e:
-        return [('C15|%s|raises:%s|bounds=False' % (e.site, type(e.exc).__name__), '%s at t = %r' % (e, t))], m, 'raised'
+        return [('C15|%s|raises:%s|bounds=False|%s' % (e.site, type(e.exc).__name__, pcls),
+                 '%s at t = %r' % (e, t))], m, 'raised'
     oc = 'ok'
     if err is not None:
-        viols.append(('C15|tsat|raises:%s|bounds=False' % type(err.exc).__name__,
+        viols.append(('C15|tsat|raises:%s|bounds=False|%s' % (type(err.exc).__name__, pcls),
                       'tsat(sat(%r)) = tsat(%r): %s' % (t, float(p), err)))
         oc = 'raised'
         if ts is None:
@@ -452,9 +465,10 @@ def chk_bounds_tsat(T, p, lo, count=None):
     try:
         err, rb = with_remedy(T, count, 'tsat', T.tsat, p, bounds=True)
     except LibErr as e:
-        return [('C15|tsat|raises:%s|bounds=True' % type(e.exc).__name__, 'tsat(%r, bounds=True): %s' % (p, e))], 'raised'
+        return [('C15|tsat|raises:%s|bounds=True|%s' % (type(e.exc).__name__, cls),
+                 'tsat(%r, bounds=True): %s; the reference range says inside = %s' % (p, e, sorted(want)))], 'raised'
     if err is not None:
-        viols.append(('C15|tsat|raises:%s|bounds=True' % type(err.exc).__name__,
+        viols.append(('C15|tsat|raises:%s|bounds=True|%s' % (type(err.exc).__name__, cls),
                       'tsat(%r, bounds=True): %s; the reference range says inside = %s' % (p, err, sorted(want))))
         oc = 'raised'
         if rb is None and True in want:
@@ -470,8 +484,12 @@ def chk_bounds_tsat(T, p, lo, count=None):
     try:
         err2, rn = with_remedy(T, None, 'tsat', T.tsat, p, bounds=False)
     except LibErr as e:
-        viols.append(('C15|tsat|raises:%s|bounds=False' % type(e.exc).__name__, 'tsat(%r): %s' % (p, e)))
+        viols.append(('C15|tsat|raises:%s|bounds=False|%s' % (type(e.exc).__name__, cls), 'tsat(%r): %s' % (p, e)))
         return viols, 'raised'
+    if err2 is not None:
+        viols.append(('C15|tsat|raises:%s|bounds=False|%s' % (type(err2.exc).__name__, cls), 'tsat(%r): %s' % (p, err2)))
+        if rn is None:
+            return viols, 'raised'
     if rn is None or float(rn) != float(rb):
         viols.append(('C15|tsat|bounds=True-value-differs-from-bounds=False|%s' % cls,
                       'tsat(%r): %r with the range flag, %r without' % (p, fl(rb), fl(rn))))
@@ -572,7 +590,8 @@ def sat_line(hi):
 def sep_configs(tier):
     cfg = [(p1, None) for p1 in P_GRID]
     grid = P_GRID if PARAMS[tier]['two_stage'] == 'all' else P_COARSE
-    cfg += [(p1, p2) for p1 in grid for p2 in grid if p2 < p1]
+    # every ordered pair: the statement does not restrict the second stage to a lower pressure
+    cfg += [(p1, p2) for p1 in grid for p2 in grid]
     return cfg
 
 
@@ -699,10 +718,7 @@ def finalize(rec, tier):
     u, sg, rest = R.collect(rec.notes)
     rec.notes[:] = rest
     if CAL:
-        for k in sorted(u):
-            print('CALIBRATE-U %s %r at %s' % (k, u[k][0], u[k][1]))
-        for k in sorted(sg):
-            print('CALIBRATE-S %s %r %r at %s / %s' % (k, sg[k][0], sg[k][2], sg[k][1], sg[k][3]))
+        R.print_calibration(u, sg)
     ev = R.evidence_of(u, sg)
     if 'tsat67_inv' in ev:
         ev['tsat67_inv']['tolerance'] = TSAT_TOL
